@@ -96,6 +96,41 @@ func c17families() []c17family {
 			}
 			return c17gram(g, tick), s
 		}},
+		{"optional unary minus before a bracket F -> m? ( E ) | n, E/T left recursive", true, func(r *rand.Rand, n int, tick func(*parsley.Context)) (parsley.Parser, string) {
+			// p=+ t=* m=- o=( c=) n=number; the optional prefix is a zero-width first element in front of a consuming terminal
+			g := gram.New("ptmocn", 3)
+			g.NTs[0] = g.Mk(gram.OpAny, g.Mk(gram.OpSeqOf, g.Ref(0), g.Rune('p'), g.Ref(1)), g.Ref(1))
+			g.NTs[1] = g.Mk(gram.OpAny, g.Mk(gram.OpSeqOf, g.Ref(1), g.Rune('t'), g.Ref(2)), g.Ref(2))
+			g.NTs[2] = g.Mk(gram.OpAny, g.Mk(gram.OpSeqOf, g.Mk(gram.OpOpt, g.Rune('m')), g.Rune('o'), g.Ref(0), g.Rune('c')), g.Rune('n'))
+			var s string
+			switch r.Intn(3) {
+			case 0: // pure nesting ((((n))))
+				k := (n - 1) / 2
+				s = rep("o", k) + "n" + rep("c", k)
+			case 1: // nesting with a minus on every other level
+				s = "n"
+				for i := 0; len(s) < n-3; i++ {
+					if i%2 == 0 {
+						s = "mo" + s + "c"
+					} else {
+						s = "o" + s + "c"
+					}
+				}
+			default: // mixed
+				s = "n"
+				for i := r.Intn(3); len(s) < n-3; i++ {
+					switch i % 3 {
+					case 0:
+						s = "o" + s + "c"
+					case 1:
+						s += "pn"
+					default:
+						s = "mo" + s + "tn" + "c"
+					}
+				}
+			}
+			return c17gram(g, tick), s
+		}},
 		{"mutual pair A -> B t | a ; B -> A u | d", true, func(r *rand.Rand, n int, tick func(*parsley.Context)) (parsley.Parser, string) {
 			l := c17letters(r, 4)
 			g := gram.New(string(l), 2)
